@@ -542,6 +542,9 @@ def build_scenario(kind, v):
             return scenario(pre, vals, adds=adds, split_after=sa, add_signs=add_signs)
         if kind == "delete":
             return scenario(pre, vals, dels=vals.get("set:to_delete", []), split_after=sa)
+        if kind == "search":
+            import e2_search
+            return e2_search.search_scenario(v, vals.get("unlimited", False))
         if kind == "delete_trees":
             stored = set(placement(pre, vals))
             gone = [i for i in vals.get("set:already_deleted_items", []) if i in stored]
